@@ -36,6 +36,18 @@ CLAIMED = {
             'acquisitions and the racy status/exception reads'),
 }
 
+CLAIMED['C16'] = ('5/C16',
+    'TLC model checking of DeferQueue.tla over all delivery histories + '
+    'replay of every explored history into the real DeferQueue',
+    'TLC enumerates every delivery history the download loop can produce '
+    '(disjoint parts, attempts restarting at the part start, arbitrary cuts '
+    'and interleavings) for several small geometries and checks in-order/'
+    'exactly-once/as-soon-as-contiguous/all-written; every explored history '
+    'is replayed into the real DeferQueue and the writes (offset, bytes) it '
+    'returns are compared with the model.',
+    'bounded geometry (object <= 8 positions, <= 3 parts, <= 3 attempts); '
+    'request_writes atomic under _io_submit_lock')
+
 REASON_TODO = 'check not built yet (build in progress)'
 
 
